@@ -77,7 +77,7 @@ CHECKS = {
 
 
 # checks that have been accepted (quiet on the unchanged tree at several seeds, mutants run); others stay "not claimed"
-READY = ["C01", "C02", "C15"]
+READY = [f"C{i:02d}" for i in range(1, 21)]
 
 
 def main():
